@@ -40,7 +40,7 @@ func c17List(tier string) []c17Case {
 			out = append(out, c17Case{f, v, k, tierN(tier, 30, 120), []int{1, 4, 16}[i%3]})
 		}
 	}
-	for _, v := range []string{"source-equal", "source-different", "header-absent", "source-empty", "source-different-with-proxy-record", "source-empty-with-proxy-record", "mixed"} {
+	for _, v := range []string{"source-equal", "source-different", "header-absent", "source-empty", "source-different-with-proxy-record", "source-empty-with-proxy-record", "source-equal-with-empty-route", "mixed"} {
 		add("source", v, 3)
 	}
 	for _, v := range []string{"stuck-writer", "failing-reader", "failing-writer", "dial-error", "slow-dial"} {
@@ -208,11 +208,17 @@ func c17Run(tier string, seed int64, idx int) *core.Result {
 				var e *wire.Rpc
 				kind := c.Variant
 				if kind == "mixed" {
-					kind = []string{"source-equal", "source-different", "header-absent", "source-empty", "source-different-with-proxy-record", "source-empty-with-proxy-record"}[n%6]
+					kind = []string{"source-equal", "source-different", "header-absent", "source-empty", "source-different-with-proxy-record", "source-empty-with-proxy-record", "source-equal-with-empty-route"}[n%7]
 				}
 				switch kind {
 				case "source-equal":
 					e = env("a0", "a1", n)
+				case "source-equal-with-empty-route":
+					// an honest envelope whose route lists are present but empty: what a by-reference
+					// transport hands over when an upstream hop has consumed the last route entry
+					e = env("a0", "a1", n)
+					e.Header.ProxyNext = []string{}
+					e.Header.ProxyRecord = []string{}
 				case "source-different":
 					e = env("a1", "a1", 1000+n) // claims to be a1
 				case "source-empty":
